@@ -17,8 +17,8 @@ def Tup : List Nat → List Attr
 /-- the table holds, for every class of the chain, the tuple a chain produces -/
 def ChainOk (M : Mros) (tbl : Table) : List Nat → Prop
   | [] => True
-  | b :: rest => getattrAttrs M tbl b = Tup O (b :: rest) ∧ (∀ a ∈ O b, a.inherited = false) ∧
-      (names (O b)).Nodup ∧ ChainOk M tbl rest
+  | b :: rest => (getattrAttrs M tbl b = Tup O (b :: rest) ∧ ownTuple tbl b = Tup O (b :: rest)) ∧
+      (∀ a ∈ O b, a.inherited = false) ∧ (names (O b)).Nodup ∧ ChainOk M tbl rest
 
 variable {O}
 
@@ -52,7 +52,7 @@ theorem inherit_inherit (a : Attr) : inherit (inherit a) = inherit a := rfl
 theorem expose_chain {M : Mros} {tbl : Table} (taken : List String) (b : Nat) (rest : List Nat)
     (h : ChainOk O M tbl (b :: rest)) :
     expose M tbl taken b = ((O b).filter (fun a => !taken.contains a.name)).map inherit := by
-  obtain ⟨hT, hO, _, _⟩ := h
+  obtain ⟨⟨_, hT⟩, hO, _, _⟩ := h
   simp only [expose, hT, Tup, List.filter_append]
   have h1 : (((Tup O rest).filter (fun a => !(names (O b)).contains a.name)).map inherit).filter
       (fun a => !(a.inherited || taken.contains a.name)) = [] := by
@@ -154,7 +154,7 @@ theorem legacyOuter_skip {M : Mros} {tbl : Table} (ms : List Nat) (taken : List 
   induction ms with
   | nil => rfl
   | cons b rest ih =>
-    obtain ⟨hT, _, _, hr⟩ := h
+    obtain ⟨⟨hT, _⟩, _, _, hr⟩ := h
     simp only [legacyOuter]
     rw [legacyInner_skip _ _ _ (by
       intro a ha; rw [hT] at ha; exact hall _ (mem_names.2 ⟨a, ha, rfl⟩))]
@@ -166,7 +166,7 @@ theorem collectLegacy_chain {M : Mros} {tbl : Table} (taken : List String) (ms :
   | nil => rfl
   | cons b rest =>
     have hnd := Tup_nodup (b :: rest) h
-    obtain ⟨hT, _, _, hr⟩ := h
+    obtain ⟨⟨hT, _⟩, _, _, hr⟩ := h
     simp only [collectLegacy, legacyOuter, hT]
     obtain ⟨h1, h2⟩ := legacyInner_nodup (Tup O (b :: rest)) hnd taken []
     rw [legacyOuter_skip rest _ _ hr (fun n hn => (h2 n).2 (Or.inr (Tup_names_mono b rest n hn))), h1]
